@@ -16,8 +16,6 @@ import (
 	"github.com/prometheus/common/model"
 	"github.com/prometheus/prometheus/config"
 
-	"tkestack.io/kvass/pkg/utils/types"
-
 	"github.com/prometheus/prometheus/discovery/targetgroup"
 	"github.com/prometheus/prometheus/scrape"
 )
@@ -182,16 +180,21 @@ func targetHash(lbls labels.Labels, url string) uint64 {
 // but populateLabels will add all config param into labels
 // must delete them from label set
 func labelsWithoutConfigParam(lbls labels.Labels, param url.Values) labels.Labels {
-	key := make([]string, 0, len(param))
-	for k := range param {
-		key = append(key, model.ParamLabelPrefix+k)
-	}
-
 	newlbls := labels.Labels{}
 	for _, l := range lbls {
-		if !types.FindString(l.Name, key...) {
-			newlbls = append(newlbls, l)
+		if strings.HasPrefix(l.Name, model.ParamLabelPrefix) {
+			if vs, isConfigParam := param[l.Name[len(model.ParamLabelPrefix):]]; isConfigParam {
+				if len(vs) > 0 && vs[0] == l.Value {
+					// prometheus of shard will populate it from config again
+					continue
+				}
+				// the param had been changed by relabel_configs. prometheus of shard overwrites "__param_xx"
+				// with the value in config before relabeling, so ship it with the prefix,
+				// the labelmap rule sidecar injected will restore it
+				l.Name = target.PrefixForInvalidLabelName + l.Name
+			}
 		}
+		newlbls = append(newlbls, l)
 	}
 	return newlbls
 }
